@@ -16,7 +16,43 @@ import (
 // All is the registry of checks.
 var All = map[string]*run.Check{}
 
-func register(c *run.Check) { All[c.ID] = c }
+func register(c *run.Check) {
+	if orig := c.Replay; orig != nil {
+		// A case that does not fail on a fresh policy is tried once more on a policy that first sanitised the
+		// inputs which preceded it in the run (recorded in the case): some defects need an earlier call.
+		c.Replay = func(raw json.RawMessage) (bool, string) {
+			ok, what := orig(raw)
+			if ok {
+				return ok, what
+			}
+			var cs Case
+			if json.Unmarshal(raw, &cs) != nil || len(cs.Before) == 0 {
+				return ok, what
+			}
+			primeNext = cs.Before
+			defer func() { primeNext = nil }()
+			if ok2, what2 := orig(raw); ok2 {
+				return true, what2 + fmt.Sprintf(" -- only after the same policy had sanitised %d earlier inputs of the run (listed in the case), not on a fresh policy", len(cs.Before))
+			}
+			return ok, what
+		}
+	}
+	All[c.ID] = c
+}
+
+// primeNext, when set (replay only), makes build() sanitise these inputs (base64) eight times over on the new policy.
+var primeNext []string
+
+// the last few inputs each policy object sanitised, for the case records
+type inputRing struct {
+	buf [12]string
+	n   int
+}
+
+var (
+	recentInputs = map[*bluemonday.Policy]*inputRing{}
+	lastSan      *bluemonday.Policy
+)
 
 // IDs lists registered check ids, sorted.
 func IDs() []string {
@@ -32,6 +68,14 @@ func IDs() []string {
 
 // San calls p.Sanitize(in) and converts a panic into (_, msg).
 func San(p *bluemonday.Policy, in string) (out string, panicMsg string) {
+	r := recentInputs[p]
+	if r == nil {
+		r = &inputRing{}
+		recentInputs[p] = r
+	}
+	r.buf[r.n%len(r.buf)] = in
+	r.n++
+	lastSan = p
 	defer func() {
 		if r := recover(); r != nil {
 			panicMsg = fmt.Sprint(r)
@@ -132,10 +176,22 @@ type Case struct {
 	Input string          `json:"input_b64"`
 	Human string          `json:"input_quoted"`
 	Extra json.RawMessage `json:"extra,omitempty"`
+	// Before: what the same policy object sanitised just before (oldest first, base64); used by the replay only if
+	// the case does not fail on a fresh policy
+	Before []string `json:"sanitised_before_b64,omitempty"`
 }
 
 func mkCase(s spec.Spec, in []byte) Case {
-	return Case{Spec: s, Input: run.B64(in), Human: run.Q(string(in))}
+	c := Case{Spec: s, Input: run.B64(in), Human: run.Q(string(in))}
+	if r := recentInputs[lastSan]; r != nil && len(in) < 4096 {
+		n := len(r.buf)
+		for i := r.n - n; i < r.n-1; i++ { // the newest entry is this input itself
+			if i >= 0 && len(r.buf[i%n]) < 4096 {
+				c.Before = append(c.Before, run.B64([]byte(r.buf[i%n])))
+			}
+		}
+	}
+	return c
 }
 
 func parseCase(raw json.RawMessage) (Case, []byte) {
@@ -151,7 +207,20 @@ type built struct {
 	V *spec.View
 }
 
-func build(s spec.Spec) built { return built{S: s, P: spec.Build(s), V: spec.ViewOf(s)} }
+func build(s spec.Spec) built {
+	b := built{S: s, P: spec.Build(s), V: spec.ViewOf(s)}
+	if primeNext != nil {
+		for rep := 0; rep < 8; rep++ {
+			for _, x := range primeNext {
+				func() {
+					defer func() { recover() }()
+					b.P.Sanitize(string(run.UnB64(x)))
+				}()
+			}
+		}
+	}
+	return b
+}
 
 func buildAll(ss []spec.Spec) []built {
 	out := make([]built, len(ss))
